@@ -23,7 +23,8 @@ DRIVER = os.path.join(DRIVER_DIR, "target", "release", "slfacts")
 # configuration name -> (cargo args, extra RUSTFLAGS)
 CONFIGS = {
     "default": ([], ""),
-    "features": (["--features", "searchlite-core/vectors,searchlite-core/zstd"], ""),
+    "features": (["--features", "searchlite-cli/vectors,searchlite-cli/zstd,searchlite-ffi/vectors,searchlite-ffi/zstd,"
+                               "searchlite-http/vectors,searchlite-http/zstd,searchlite-wasm/vectors"], ""),
     "release": ([], "-C debug-assertions=off -C overflow-checks=off"),
 }
 EXPECTED_CRATES = {"searchlite_core", "searchlite_cli", "searchlite_ffi", "searchlite_http", "searchlite_wasm"}
